@@ -8,11 +8,12 @@ from sdpcap.capture import SymProgram, specnorm
 from sdpcap.task import SdpTask
 from symnp.array import SymArray
 from symnp.core import SymBool, lift
-from symnp.harness import Obligation, eq
+from symnp.harness import Obligation, eq, jsonable
 from props.c02 import oracle_ptrace
 from props.c10 import tr
-from props.common import dagger
+from props.common import Task, dagger
 from toqito.channel_metrics import channel_fidelity, completely_bounded_spectral_norm, completely_bounded_trace_norm, diamond_distance
+from toqito.channel_metrics import fidelity_of_separability as channel_fidelity_of_separability
 
 META = {
     "id": "C20",
@@ -111,6 +112,14 @@ def fid_instances(tier):
         n_pairs = 2 if d <= 3 else 1
         for s in range(n_pairs):
             fam.append((f"local dim {d}, pair {s}", choi_of(ks(d, 10 * d + s)), choi_of(ks(d, 10 * d + s + 5)), d))
+    # mixed storage: one Choi matrix held in a REAL (float64) array, the other complex - both orders
+    for d in [2, 3]:
+        rng = np.random.default_rng(77 + d)
+        real_ks = [rng.integers(-2, 3, size=(d, d)) / 2 for _ in range(2)]
+        Jr = np.real(choi_of(real_ks)).astype(float)
+        Jc = choi_of(ks(d, 31 * d))
+        fam.append((f"local dim {d}, first Choi matrix stored as a float array, second complex", Jr, Jc, d))
+        fam.append((f"local dim {d}, first Choi matrix complex, second stored as a float array", Jc, Jr, d))
     return fam
 
 
@@ -118,7 +127,7 @@ def ref_fid(V, inst):
     J1, J2, d = inst
     n = d * d
     lam = np.asarray(V[0]).reshape(-1)[0]
-    Q = np.asarray(V[1])
+    Q = np.asarray(V.cplx(1))        # the definition's Q ranges over all complex matrices
     blk = np.empty((2 * n, 2 * n), dtype=object)
     blk[:n, :n] = snap(J1)
     blk[:n, n:] = dagger(Q)
@@ -205,8 +214,120 @@ def ob_branch(case):
                       neg_control=False, tv=False, max_paths=200, witness=witness)
 
 
+class FosProductTask(Task):
+    """channel fidelity of separability of a pure tripartite PRODUCT state |b>|a>|r> (systems B, A, R, unequal dimensions): the
+    program the real function hands to the solver is captured; z3 decides that the constant channel R -> A' preparing |a><a|
+    (Choi operator I_R (x) |a><a|^{(x)k}) satisfies every equality of the captured program, that each PSD-constrained operator at
+    that point is one of the explicit Gram forms I (x) (|a><a| or its transpose)^{(x)k}, and that the objective there is exactly
+    (1 + 1)/2, i.e. the returned value 2*obj - 1 attains 1.  (The matching upper bound - objective <= 1 on the feasible set - is a
+    statement about PSD operators and is outside what the uninterpreted PSD predicate can show; the real solver's value is used
+    on replay only.)"""
+    engine = "E2-sdpcap (T3 certificate in z3)"
+    weight = 40
+
+    def __init__(self, dims, k=1, earlier_calls=0):
+        cfg = {"dims_B_A_R": list(dims), "k": k}
+        if earlier_calls:
+            cfg["earlier_calls_with_the_same_dims_list"] = earlier_calls
+        super().__init__("channel_fidelity_of_separability.product_state_program_admits_the_constant_channel_with_value_one", cfg)
+        self.dims, self.k, self.earlier = tuple(dims), k, earlier_calls
+
+    def _instance(self):
+        unit = {2: np.array([3, 4j]) / 5, 3: np.array([2, -2j, 1]) / 3, 4: np.array([1, 1j, -1, 1]) / 2}
+        dB, dA, dR = self.dims
+        b, a, r = unit[dB], unit[dA].conj(), unit[dR] * (1j if dR == 2 else 1)
+        proj = lambda v: np.outer(v, v.conj())   # noqa: E731
+        return np.kron(np.kron(proj(b), proj(a)), proj(r)), a
+
+    def _call(self, psi, dl):
+        return channel_fidelity_of_separability(psi, dl, self.k)
+
+    def _run(self, rec, seed):
+        import itertools
+        import z3
+        from sdpcap.capture import capture_call, extract
+        from sdpcap.embed import coord_values, linear_constraints, objective_term, prove, rv
+        dB, dA, dR = self.dims
+        psi, a = self._instance()
+        dl = list(self.dims)
+        for _ in range(self.earlier):
+            self._call(psi, dl)            # solved for real; the same list object is passed again below
+        cap = capture_call(lambda: self._call(psi, dl))
+        if cap is None:
+            rec["notes"].append("no Problem.solve was reached: zero coverage")
+            return
+        prog = extract(cap)
+        rec["programs"] = 1
+        rec["program"] = prog.summary()
+        n = dR * dA ** self.k
+        if len(prog.vars) != 1 or tuple(prog.vars[0].shape) != (n, n):
+            rec["status"] = "violation" if self._replay_value(rec, psi) else rec["status"]
+            rec["notes"].append(f"captured variable {[(v.name, v.shape) for v in prog.vars]} is not the {n}x{n} Choi operator of a channel R -> A^k")
+            return
+        aa = np.outer(a, a.conj())
+
+        def point(transposed):
+            M = np.eye(dR)
+            for c in range(self.k):
+                M = np.kron(M, aa.T if c in transposed else aa)
+            return M
+        S0 = point(())
+        cv = [coord_values(prog.vars[0], [[rv(x) for x in row] for row in S0.real], [[rv(x) for x in row] for row in S0.imag])]
+        conj, psd_list, _ = linear_constraints(prog, cv)
+        obj = objective_term(prog, cv)
+        gram_ok = []
+        for re, im in psd_list:
+            alts = []
+            for sz in range(self.k + 1):
+                for T in itertools.combinations(range(self.k), sz):
+                    G = point(T)
+                    if G.shape != re.shape:
+                        continue
+                    alts.append(z3.And(*[z3.And(re[i, j] == rv(G[i, j].real), im[i, j] == rv(G[i, j].imag)) for i in range(n) for j in range(n)]))
+            gram_ok.append(z3.Or(*alts) if alts else z3.BoolVal(False))
+        goal = z3.And(*conj, *gram_ok, obj == 1)
+        r, _ = prove(z3.Not(goal))
+        r2, _ = prove(z3.Not(z3.And(*conj, *gram_ok, obj == rv(0.5))))      # negative control: a wrong objective value must be refuted
+        r3, _ = prove(z3.BoolVal(True), conj)                                  # reachability: the equalities are satisfiable at the point
+        rec["queries"], rec["neg_control"], rec["reachable"] = 3, r2 == "sat", r3 == "sat"
+        if r == "unsat" and r2 == "sat" and r3 == "sat":
+            rec["status"] = "discharged"
+            return
+        rec["notes"].append(f"certificate query: {r}")
+        if r == "sat" and self._replay_value(rec, psi):
+            rec["status"] = "violation"
+
+    def _replay_value(self, rec, psi):
+        """the real function with the real solver: the value on a product state must be 1"""
+        dl = list(self.dims)
+        try:
+            for _ in range(self.earlier):
+                self._call(psi, dl)
+            got = float(np.real(self._call(psi, dl)))
+        except Exception as e:  # noqa: BLE001
+            rec["violation"] = {"source": "the real function raises on a pure tripartite product state (reproduced)", "inputs": jsonable(self.cfg),
+                                "exception": f"{type(e).__name__}: {str(e)[:300]}"}
+            return True
+        if abs(got - 1) > 1e-4:
+            rec["violation"] = {"source": "certificate mismatch reproduced numerically with the real solver", "inputs": jsonable(self.cfg),
+                                "actual": got, "expected": 1.0}
+            return True
+        rec["notes"].append(f"the program does not admit the constant-channel certificate but the real value is {got:.6f}")
+        return False
+
+    def replay(self, rp):
+        rec = {"notes": []}
+        bad = self._replay_value(rec, self._instance()[0])
+        print(rec.get("violation", rec["notes"]))
+        return not bad
+
+
 def obligations(tier):
     obs = []
+    for dims in [(2, 2, 3), (3, 2, 2), (2, 3, 2)] + ([(2, 2, 4), (4, 2, 2), (3, 3, 2)] if tier == "thorough" else []):
+        obs.append(FosProductTask(dims, 1))
+    obs.append(FosProductTask((3, 2, 2), 1, earlier_calls=1))
+    obs.append(FosProductTask((2, 2, 3), 2))
     for name, J in cb_instances(tier):
         d = int(round(np.sqrt(J.shape[0])))
         obs.append(SdpTask("completely_bounded_trace_norm.program_is_watrous_sdp", {"map": name}, (lambda J=J: completely_bounded_trace_norm(J)),
